@@ -113,7 +113,7 @@ type stOp struct {
 var stNames = []string{"x", "y", "sub"}
 
 func drawStOps(rt *rapid.T, n, nDirs int) []stOp {
-	kinds := []string{"rename", "rename", "rename", "mkdir", "remove", "lookup", "readdir", "enter", "removeAllChildren", "bulkRemove", "removeAll", "createChildren", "lookupAll", "filter", "openCreate"}
+	kinds := []string{"rename", "rename", "rename", "mkdir", "remove", "lookup", "readdir", "readdirAttrs", "readdirAttrs", "subFile", "enter", "removeAllChildren", "bulkRemove", "removeAll", "createChildren", "lookupAll", "filter", "openCreate"}
 	ops := make([]stOp, 0, n)
 	for i := 0; i < n; i++ {
 		ops = append(ops, stOp{
@@ -181,6 +181,27 @@ func (t *stTree) apply(ctx context.Context, o stOp) {
 		d.VirtualLookup(ctx, name, virtual.AttributesMaskInodeNumber, &attr)
 	case "readdir":
 		d.VirtualReadDir(ctx, 0, virtual.AttributesMaskInodeNumber, stReporter{})
+	case "readdirAttrs":
+		// A listing that needs every child directory's lock (change ID);
+		// within one call no name may be reported twice and cookies must
+		// strictly increase (C13), whatever other threads do meanwhile.
+		r := &stCollectingReporter{}
+		d.VirtualReadDir(ctx, 0, virtual.AttributesMaskInodeNumber|virtual.AttributesMaskChangeID|virtual.AttributesMaskLastDataModificationTime, r)
+		if r.problem != "" {
+			panic("C13: " + r.problem)
+		}
+	case "subFile":
+		// Keeps a child directory's lock busy for a moment: create a file
+		// inside the named subdirectory.
+		if child, err := d.LookupChild(name); err == nil {
+			if sub, _ := child.GetPair(); sub != nil {
+				if leaf, err := t.files.NewFile(pool.ZeroHoleSource, false, 0, 0); err == nil {
+					if sub.CreateChildren(map[path.Component]virtual.InitialChild{name2: virtual.InitialChild{}.FromLeaf(leaf)}, true) != nil {
+						leaf.Unlink()
+					}
+				}
+			}
+		}
 	case "enter":
 		d.CreateAndEnterPrepopulatedDirectory(name)
 	case "removeAllChildren":
@@ -212,6 +233,27 @@ func (t *stTree) apply(ctx context.Context, o stOp) {
 			leaf.VirtualClose(virtual.ShareMaskWrite)
 		}
 	}
+}
+
+type stCollectingReporter struct {
+	names      map[string]bool
+	lastCookie uint64
+	problem    string
+}
+
+func (r *stCollectingReporter) ReportEntry(nextCookie uint64, name path.Component, child virtual.DirectoryChild, attributes *virtual.Attributes) bool {
+	if r.names == nil {
+		r.names = map[string]bool{}
+	}
+	if r.names[name.String()] {
+		r.problem = fmt.Sprintf("one VirtualReadDir call reported entry %q twice", name.String())
+	}
+	if nextCookie <= r.lastCookie {
+		r.problem = fmt.Sprintf("one VirtualReadDir call reported cookie %d after %d", nextCookie, r.lastCookie)
+	}
+	r.names[name.String()] = true
+	r.lastCookie = nextCookie
+	return true
 }
 
 type stReporter struct{}
